@@ -20,7 +20,7 @@ LEVEL_TEXT = (
     "(AES-CTR key, nonce) pair may repeat; a fleet of fresh interpreters repeats a short history and is compared across processes"
 )
 RULE = (
-    "case = list of 2..10 construction ops drawn from 14 op kinds; non-trivial = at least two artifacts of the same kind in the history; "
+    "case = list of 2..10 construction ops drawn from 20 op kinds; non-trivial = at least two artifacts of the same kind in the history; "
     "distinct by the op-kind sequence. Chance collisions have probability <= 2^-60 for the sizes involved (>= 8 random bytes per value)"
 )
 ASSUMPTIONS = [
@@ -29,8 +29,9 @@ ASSUMPTIONS = [
 ]
 FLOORS = {"repeat_kind": 0.2}
 
-OPS = ["sb20_default", "sb20_explicit", "sb21_default", "sb21_explicit", "sb21_export", "adv_params", "mbi_class", "mbi_config",
-       "otfad_blob", "otfad_export", "iee_xts", "iee_ctr", "bee_prdb", "bee_kib", "bee_header", "hab_nonce"]
+OPS = ["sb20_default", "sb20_explicit", "sb21_default", "sb21_explicit", "sb21_export", "adv_params", "sb21_cfg_shared", "sb21_cfg_fresh",
+       "mbi_class", "mbi_config", "otfad_blob", "otfad_export", "iee_xts", "iee_ctr", "bee_prdb", "bee_kib", "bee_header", "hab_nonce",
+       "hab_dek_128", "hab_dek_256"]
 
 
 def _case():
@@ -48,8 +49,12 @@ def _mbi_cls():
     return _STATE["mbi"]
 
 
-def _do(op: str, idx: int) -> dict[str, bytes]:
-    """Execute one construction; returns {kind: value} of every self-chosen secret."""
+def _do(op: str, idx: int, env: dict | None = None) -> dict[str, bytes]:
+    """Execute one construction; returns {kind: value} of every self-chosen secret.
+
+    env is the per-history environment: a configuration dictionary that the user keeps and passes again
+    ("sb21_cfg_shared") and a project directory in which key files of earlier builds are still lying around."""
+    env = env if env is not None else {}
     from spsdk.sbfile.sb2.commands import CmdReset
     from spsdk.sbfile.sb2.images import BootImageV20, BootImageV21, SBV2xAdvancedParams
     from spsdk.sbfile.sb2.sections import BootSectionV2
@@ -69,6 +74,28 @@ def _do(op: str, idx: int) -> dict[str, bytes]:
         kw = {} if op != "sb21_explicit" else {"advanced_params": SBV2xAdvancedParams()}
         img = BootImageV21(kek, BootSectionV2(0, CmdReset()), **kw)
         return {"sb2_dek": img.dek, "sb2_mac": img.mac, "sb2_nonce": img.header.nonce, "sb2_ctr_pair": img.dek + img.header.nonce}
+    if op in ("sb21_cfg_shared", "sb21_cfg_fresh"):
+        # what BootImageV21.load_from_config does with the 'options' of a BD/YAML configuration without dek/mac/nonce
+        cfg = env.setdefault("sb21_options", {"flags": 8, "buildNumber": 1}) if op == "sb21_cfg_shared" else {"flags": 8, "buildNumber": 1}
+        a = BootImageV21.get_advanced_params(cfg)
+        return {"sb2_dek": a.dek, "sb2_mac": a.mac, "sb2_nonce": a.nonce, "sb2_ctr_pair": a.dek + a.nonce}
+    if op in ("hab_dek_128", "hab_dek_256"):
+        import types
+
+        from spsdk.image.hab.commands.commands import SecCommand
+        from spsdk.image.hab.hab_config import CommandsConfig
+        from spsdk.image.hab.segments import CsfHabSegment
+
+        bits = int(op[-3:])
+        workdir = env.get("workdir") or os.path.join(_STATE.setdefault("scratch", os.getcwd()), "c17-default")
+        os.makedirs(workdir, exist_ok=True)
+        cmds = CommandsConfig.load_from_config({"sections": [{"section_id": SecCommand.INSTALL_SECRET_KEY.tag, "options": [
+            {"SecretKey_Name": "dek_%d.bin" % bits}, {"SecretKey_Length": bits}]}]})
+        dek = CsfHabSegment.get_dek_from_config(types.SimpleNamespace(commands=cmds), search_paths=[workdir])
+        on_disk = open(os.path.join(workdir, "dek_%d.bin" % bits), "rb").read()
+        if on_disk != dek:
+            raise AssertionError("HAB DEK file does not hold the DEK that was returned")
+        return {"hab_dek_%d" % bits: dek}
     if op == "adv_params":
         a = SBV2xAdvancedParams()
         return {"sb2_dek": a.dek, "sb2_mac": a.mac, "sb2_nonce": a.nonce, "sb2_padding": a.padding}
@@ -122,10 +149,12 @@ def _do(op: str, idx: int) -> dict[str, bytes]:
 def run_history(case, o: Oracle) -> None:
     ops = list(case["ops"])
     seen: dict[str, dict[bytes, int]] = {}
+    _STATE["hist"] = _STATE.get("hist", 0) + 1
+    env = {"workdir": os.path.join(_STATE.get("scratch", "."), "c17-hist-%d-%d" % (os.getpid(), _STATE["hist"]))}
     for idx, op in enumerate(ops):
         values = None
         with o.spsdk("construct", op):
-            values = _do(op, idx)
+            values = _do(op, idx, env)
         if values is None:
             continue
         for kind, val in values.items():
@@ -137,6 +166,9 @@ def run_history(case, o: Oracle) -> None:
                 o.fail("fresh", "reused:%s" % kind, "step %d (%s) and step %d (%s) share %s = %s" % (prev, ops[prev], idx, op, kind, val.hex()))
             else:
                 seen[kind][val] = idx
+    import shutil
+
+    shutil.rmtree(env["workdir"], ignore_errors=True)
     fam = [op.split("_")[0] for op in ops]
     repeat = len(set(fam)) < len(fam)
     if repeat:
@@ -154,8 +186,9 @@ sys.path.insert(0, %(repo)r); sys.path.insert(0, %(verif)r)
 import logging; logging.disable(logging.CRITICAL)
 from props import c17
 out = {}
+env = {"workdir": %(workdir)r if %(sequential)r else %(workdir)r + "-%%d" %% os.getpid()}
 for idx, op in enumerate(%(ops)r):
-    for kind, val in c17._do(op, idx).items():
+    for kind, val in c17._do(op, idx, env).items():
         out.setdefault(kind, []).append(bytes(val).hex())
 print("RESULT" + json.dumps(out))
 """
@@ -167,12 +200,27 @@ def run_fleet(case, o: Oracle) -> None:
     env = dict(os.environ)
     procs = []
     verif = os.path.dirname(os.path.dirname(os.path.abspath(__file__)))
-    code = _CHILD % {"repo": REPO, "verif": verif, "ops": ops}
+    import shutil
+
+    workdir = os.path.join(_STATE.get("scratch", "."), "c17-fleet-%d-%d" % (os.getpid(), case.get("round", 0)))
+    shutil.rmtree(workdir, ignore_errors=True)
+    sequential = bool(case.get("sequential"))
+    code = _CHILD % {"repo": REPO, "verif": verif, "ops": ops, "workdir": workdir, "sequential": sequential}
+    outputs = []
     for _ in range(n):
-        procs.append(subprocess.Popen([sys.executable, "-c", code], stdout=subprocess.PIPE, stderr=subprocess.PIPE, env=env, cwd=verif))
-    results = []
+        p = subprocess.Popen([sys.executable, "-c", code], stdout=subprocess.PIPE, stderr=subprocess.PIPE, env=env, cwd=verif)
+        if sequential:  # interpreter restarts in one project directory: one build after the other
+            outputs.append((p,) + p.communicate(timeout=300))
+        else:
+            procs.append(p)
     for p in procs:
-        out, err = p.communicate(timeout=300)
+        outputs.append((p,) + p.communicate(timeout=300))
+    import glob as _glob
+
+    for d in _glob.glob(workdir + "*"):
+        shutil.rmtree(d, ignore_errors=True)
+    results = []
+    for p, out, err in outputs:
         line = [l for l in out.decode().splitlines() if l.startswith("RESULT")]
         if p.returncode != 0 or not line:
             o.fail("construct", "fleet_child_failed", err.decode()[-800:])
@@ -186,20 +234,22 @@ def run_fleet(case, o: Oracle) -> None:
                 if prev is not None:
                     o.fail("fresh", "reused_across_processes:%s" % kind, "process %d and %d share %s = %s" % (prev, pi, kind, v))
                 seen[kind][v] = pi
-    o.label("fleet", "repeat_kind")
+    o.label("fleet", "repeat_kind", "fleet:sequential" if sequential else "fleet:concurrent")
     o.count(len(results), len(results))
     o.nontrivial(len(results) >= 2)
-    o.key(("fleet", tuple(ops), n))
-    o.sample({"fleet_processes": n, "ops": ops})
+    o.key(("fleet", tuple(ops), n, sequential))
+    o.sample({"fleet_processes": n, "ops": ops, "sequential": sequential})
 
 
-_FLEET_OPS = [["sb20_default", "sb21_default", "mbi_class", "otfad_export", "iee_xts", "bee_header", "hab_nonce"],
-              ["sb21_explicit", "adv_params", "mbi_config", "iee_ctr", "bee_prdb", "bee_kib"]]
+_FLEET_OPS = [["sb20_default", "sb21_default", "mbi_class", "otfad_export", "iee_xts", "bee_header", "hab_nonce", "sb21_cfg_fresh"],
+              ["sb21_explicit", "adv_params", "mbi_config", "iee_ctr", "bee_prdb", "bee_kib", "hab_dek_128", "hab_dek_256"]]
 
 
 def parts(ctx):
+    _STATE["scratch"] = ctx.work
     return [
         HypPart("history", _case(), run_history, {"quick": 1200, "thorough": 60000}),
-        EnumPart("fleet", lambda tier: 2 if tier == "quick" else 8,
-                 lambda tier, i: {"ops": _FLEET_OPS[i % 2], "n": 4 if tier == "quick" else 8, "round": i}, run_fleet, exhaustive=False, max_shards=2),
+        EnumPart("fleet", lambda tier: 4 if tier == "quick" else 12,
+                 lambda tier, i: {"ops": _FLEET_OPS[i % 2], "n": (4 if tier == "quick" else 8) if i < 2 else 3, "round": i, "sequential": i % 4 >= 2},
+                 run_fleet, exhaustive=False, max_shards=4),
     ]
